@@ -68,11 +68,15 @@ def decodeFields (beginString : Bytes) (tbl : Tbl) (rawLen validIdx waitRes : Na
 def waitResOf (validIdx : Nat) (msg : Bytes) : Nat :=
   if (closedAtOf msg).isSome then validIdx + cutOf msg else validIdx
 
+/-- `SOH 10=` has been seen but the SOH that ends the CheckSum field has not arrived -/
+def ckOpen (msg : Bytes) : Bool := (findSub cksumPat msg).isSome && (closedAtOf msg).isNone
+
 theorem decode_eq (bs : Bytes) (tbl : Tbl) (raw : Bytes) :
     decode bs tbl raw =
       match findSub marker raw with
       | none => .none (raw.length - partialMarkerKeep raw)
       | some vi =>
+        if ckOpen (raw.drop vi) then .none vi else
         decodeFields bs tbl raw.length vi (waitResOf vi (raw.drop vi))
           (fieldsOf ((raw.drop vi).take (cutOf (raw.drop vi))))
           ((raw.drop vi).take (cutOf (raw.drop vi))) := by
@@ -117,6 +121,24 @@ theorem waitResOf_le {vi : Nat} {raw : Bytes} (hvi : vi ≤ raw.length) :
     simp only [hn, Option.getD_some, List.length_drop] at this ⊢
     omega
   · exact hvi
+
+/-- the closed piece ends with the SOH of its CheckSum field -/
+theorem closedAtOf_take_ends {msg : Bytes} {c : Nat} (h : closedAtOf msg = some c) :
+    ∃ x, msg.take c = x ++ [SOH] := by
+  unfold closedAtOf at h
+  split at h
+  · rename_i ci hci
+    split at h
+    · rename_i e he
+      cases h
+      obtain ⟨A, B, hAB, hAl, _⟩ := findChar_some he
+      refine ⟨msg.take (ci + 1) ++ A, ?_⟩
+      have h1 : e + (ci + 1) + 1 = (ci + 1) + (e + 1) := by omega
+      rw [h1, List.take_add, hAB]
+      have h2 : A ++ SOH :: B = (A ++ [SOH]) ++ B := by simp
+      rw [h2, List.take_left' (by simp [hAl]), List.append_assoc]
+    · cases h
+  · cases h
 
 /-! ### the first field starts with "8=" -/
 
@@ -240,7 +262,10 @@ theorem decode_resOK (bs : Bytes) (tbl : Tbl) (raw : Bytes) :
   | none => exact ⟨[], by simp only [ResOK]; omega⟩
   | some vi =>
     obtain ⟨b, _, hvi⟩ := drop_of_findSub h
-    exact ⟨_, decodeFields_bounds hvi (waitResOf_le hvi)⟩
+    dsimp only
+    split
+    · exact ⟨[], hvi⟩
+    · exact ⟨_, decodeFields_bounds hvi (waitResOf_le hvi)⟩
 
 theorem decode_ne_raised (bs : Bytes) (tbl : Tbl) (raw : Bytes) (k : Kind) :
     decode bs tbl raw ≠ .raised k := by
@@ -249,6 +274,9 @@ theorem decode_ne_raised (bs : Bytes) (tbl : Tbl) (raw : Bytes) (k : Kind) :
   | none => intro h'; cases h'
   | some vi =>
     obtain ⟨b, hb, _⟩ := drop_of_findSub h
+    dsimp only
+    split
+    · intro h'; cases h'
     apply decodeFields_no_raise
     intro f0 rest hf h3
     rw [hb] at hf h3
